@@ -248,6 +248,11 @@ class Peer:
             },
         )
 
+        # nothing more is sent on this session: do not keep whoever waits for a flush (sync mode) waiting
+        # for the next one, which for a passive neighbor only the waiting reactor can accept
+        if self.neighbor.rib:
+            self.neighbor.rib.outgoing.fire_flush_callbacks()
+
         if self.proto:
             try:
                 message = f'peer reset, message [{message}] error[{error}]'
@@ -599,6 +604,12 @@ class Peer:
         if not new_routes and self.neighbor.rib.outgoing.pending():
             log.debug(lazymsg('peer.update.generator.creating'), self.id())
             new_routes = self.proto.new_update_generator(include_withdraw)
+        elif not new_routes:
+            # Nothing is being sent and nothing is waiting to be: whoever waits for the flush (an API
+            # command in sync mode) has it.  A command which queues nothing - a route announced twice,
+            # a family this neighbor does not carry - never made the generator below exist, its waiter
+            # was never released, and the reactor, which awaits the command, stopped serving the API
+            self.neighbor.rib.outgoing.fire_flush_callbacks()
 
         if new_routes:
             try:
